@@ -239,33 +239,44 @@ def segments(interp, g: Grid):
         return [(Poly.const(0), ext, (lambda j, el=el, ax=ax: subst(el, {ax: j})))]
     sel = el.kw["idx"].p
     c = sel - Poly.atom(ax)
-    if not c.is_const():
-        return None
+    if Poly.atom(ax) in c.atoms() or ax in c.all_atoms_deep():
+        return None             # selector is not `axis + offset`
+
+    def _le(x, y):
+        d_ = (y - x)
+        if d_.is_const():
+            return d_.as_const() >= 0
+        return interp.decide(CondV("cmp", "<=", x, y))
     out = []
     pos = Poly.const(0)
     for p in el.args:
         st, ln, val = p.items[0].p, p.items[1].p, p.items[2]
-        # piece applies for axis index in [st - c, st - c + ln)
+        # piece applies for axis index in [st - c, st - c + ln), clipped to [0, ext)
         lo = st - c
         hi = lo + ln
-        # clip below 0
-        if lo.is_const() and lo.as_const() < 0:
-            if hi.is_const() and hi.as_const() <= 0:
-                continue
-            if not hi.is_const():
-                d = interp.decide(CondV("cmp", "<=", hi, Poly.const(0)))
-                if d is True:
-                    continue
-                if d is None and False:
-                    return None
+        if _le(hi, Poly.const(0)) is True or _le(ext, lo) is True:
+            continue                                    # entirely outside
+        if _le(Poly.const(0), lo) is True:
+            pass
+        elif _le(lo, Poly.const(0)) is True:
             lo = Poly.const(0)
-        # clip above ext
-        over = hi - ext
-        if over.is_const() and over.as_const() > 0:
+        else:
+            return None
+        if _le(hi, ext) is True:
+            pass
+        elif _le(ext, hi) is True:
             hi = ext
+        else:
+            return None
         ln2 = hi - lo
         if ln2.is_const() and ln2.as_const() <= 0:
             continue
+        if not ln2.is_const():
+            e_ = interp.decide(CondV("cmp", "<=", ln2, Poly.const(0)))
+            if e_ is True:
+                continue
+            if e_ is None and interp.decide(CondV("cmp", "<=", Poly.const(0), ln2)) is not True:
+                return None             # (a piece whose length is provably >= 0, possibly 0, is kept)
         if _is_pw(val):
             sub = segments(interp, Grid([[(ax, ext)]], val))
             if sub is None:
@@ -274,13 +285,27 @@ def segments(interp, g: Grid):
             for s2, l2, f2 in sub:
                 a = s2
                 b = s2 + l2
-                na = a if not ((a - lo).is_const() and (a - lo).as_const() < 0) else lo
-                nb = b if not ((b - hi).is_const() and (b - hi).as_const() > 0) else hi
+                # intersection of the nested piece [a, b) with the enclosing piece [lo, hi): every comparison must be decidable
+                def _le(x, y):
+                    d_ = (y - x)
+                    if d_.is_const():
+                        return d_.as_const() >= 0
+                    return interp.decide(CondV("cmp", "<=", x, y))
+                c1 = _le(a, lo)
+                na = lo if c1 is True else (a if _le(lo, a) is True else None)
+                c2 = _le(hi, b)
+                nb = hi if c2 is True else (b if _le(b, hi) is True else None)
+                if na is None or nb is None:
+                    return None
                 l3 = nb - na
                 if l3.is_const() and l3.as_const() <= 0:
                     continue
-                if not ((na - lo).is_const() or (na - a).is_zero()):
-                    return None
+                if not l3.is_const():
+                    e_ = interp.decide(CondV("cmp", "<=", l3, Poly.const(0)))
+                    if e_ is True:
+                        continue
+                    if e_ is None and interp.decide(CondV("cmp", "<=", Poly.const(0), l3)) is not True:
+                        return None
                 shift = na - a
                 out.append((na, l3, (lambda j, f2=f2, shift=shift: f2(j + shift))))
             continue
